@@ -927,6 +927,8 @@ class MPO(MPSGeometry):
             new_W[i] = w
         self._W = new_W
         chi = self.chi
+        self.IdL = list(self.IdL)  # new lists: don't modify those of a (shallow) copy of `self`
+        self.IdR = list(self.IdR)
         for b, p in enumerate(perms):
             IdL = self.IdL[b]
             if IdL is not None:
